@@ -135,6 +135,11 @@ def cut(data, cuts):
 GUID = b'0123456789abcdef0123456789abcdef'
 
 
+class RigFailure(Exception):
+    """The connection under test could not be brought to the established state by a
+    conforming server script: itself a discrepancy, reported by the caller."""
+
+
 class ClientRig:
     """DBusClientConnection driven entirely in memory.
 
@@ -166,13 +171,24 @@ class ClientRig:
         if self.unix:
             deliver(self.conn, b'AGREE_UNIX_FD\r\n')
         out = self.transport.take()
-        assert out.startswith((b'NEGOTIATE_UNIX_FD\r\nBEGIN\r\n' if self.unix else b'BEGIN\r\n')), out
-        raw = out.split(b'BEGIN\r\n', 1)[1]
-        hello = R.decode_message(raw)
-        assert hello['fields'][3] == 'Hello'
-        self.hello_serial = hello['serial']
-        deliver(self.conn, R.encode_message(2, 1, {5: hello['serial'], 6: self.bus_name}, 's', [self.bus_name]))
-        assert self.conn.busName == self.bus_name
+        try:
+            if not out.startswith((b'NEGOTIATE_UNIX_FD\r\nBEGIN\r\n' if self.unix else b'BEGIN\r\n')):
+                raise RigFailure('after OK the client wrote %r' % out)
+            raw = out.split(b'BEGIN\r\n', 1)[1]
+            try:
+                hello = R.decode_message(raw)
+            except R.RefError as e:
+                raise RigFailure('no well-formed Hello after BEGIN: %s (%r)' % (e, raw))
+            if hello['fields'].get(3) != 'Hello':
+                raise RigFailure('first message is not Hello: %r' % (hello['fields'],))
+            self.hello_serial = hello['serial']
+            deliver(self.conn, R.encode_message(2, 1, {5: hello['serial'], 6: self.bus_name}, 's', [self.bus_name]))
+            if self.conn.busName != self.bus_name or len(self.connect_results) != 1:
+                raise RigFailure('Hello reply (reply_serial %d) did not complete the connection: busName=%r connect '
+                                 'results %r' % (hello['serial'], self.conn.busName, self.connect_results))
+        except RigFailure:
+            self.close_rig()
+            raise
         return self
 
     def sent_messages(self):
